@@ -70,6 +70,8 @@ func runC05(w *World) *Result {
 	SiblingCells(w, bash, batch, r, "R-C05-optable")
 	AllocRule(w, batch, r, "R-C05-alloc")
 	PopRule(w, "batch", r, "R-C05-alloc")
+	r.Rule("R-C05-exit", "Batch: the exit status is expanded before the local environment is dropped; a panic ends the script from any call depth", 2)
+	BatchExitRule(w, batch, r, "R-C05-exit")
 	r.Rule("R-C05-chain", "Batch: else-if and else continue the open if block", 2)
 	ChainRule(w, batch, r, "R-C05-chain")
 	r.Rule("R-C05-lenmono", "Batch: element assignment never shortens a slice (the stored length index+1 is written only where index >= old length)", 1)
